@@ -384,6 +384,35 @@ _OMD = _cls_methods(OMD, 'boltons.dictutils', [
     {'py': 'clear', 'name': 'clear', 'params': {}, 'result': 'None',
      'tie_theorem': 'C01.src_clear_eq_model'},
 ])
+# round 3e (continuation): the methods that read a KEY back out of a cell (`k = self.root[PREV][KEY]`): extension module
+# harness/py2lean_c01.py (spec `ext`; `key_locals`: the locals of the static key type that receive a CHECKED UNBOXING,
+# `PyRtC01.unboxKey?`), `if self:` of the dict subclass, `try / except KeyError` around a translated method.
+OMD['ext'] = 'py2lean_c01'
+_OMD = _OMD + _cls_methods(OMD, 'boltons.dictutils', [
+    {'py': 'poplast', 'name': 'poplast', 'params': {'k': 'Option κ', 'default': 'Option ν'}, 'result': 'ν',
+     'key_locals': ['k'], 'tie_theorem': 'C01.src_poplast_eq_model'},
+    {'py': 'pop', 'name': 'pop', 'params': {'k': 'κ', 'default': 'Option ν'}, 'result': 'ν', 'loop_fuel': True,
+     'tie_theorem': 'C01.src_pop_eq_model'},
+    {'py': 'popitem', 'name': 'popitem', 'params': {}, 'result': 'κ × ν', 'loop_fuel': True, 'key_locals': ['k'],
+     'tie_theorem': 'C01.src_popitem_eq_model'},
+])
+# the readers `self[k]` and `getlist(k[, default])` (K4: the item of `dict.__getitem__(self, k)` bound first)
+_OMD = _OMD + _cls_methods(OMD, 'boltons.dictutils', [
+    {'py': '__getitem__', 'name': 'getitem', 'params': {'k': 'κ'}, 'result': 'ν',
+     'tie_theorem': 'C01.src_getitem_eq_model'},
+    {'py': 'getlist', 'name': 'getlist', 'params': {'k': 'κ', 'default': 'Option (List ν)'}, 'result': 'List ν',
+     'tie_theorem': 'C01.src_getlist_eq_model'},
+])
+# the generator `iterkeys(multi=False)`: walks the store with `while curr is not root` (loop fuel), the keys it yields are
+# read back out of the cells (K1 / K6), the local `yielded = set()` is the list of the keys added (K5 / K7)
+_OMD = _OMD + _cls_methods(OMD, 'boltons.dictutils', [
+    {'py': 'iterkeys', 'name': 'iterkeys', 'kind': 'generator', 'params': {'multi': 'Bool'}, 'result': 'κ',
+     'loop_fuel': True, 'key_locals': ['k'], 'yield_unbox': True, 'locals': {'yielded': 'List κ'},
+     'tie_theorem': 'C01.src_iterkeys_eq_model'},
+    {'py': 'iteritems', 'name': 'iteritems', 'kind': 'generator', 'params': {'multi': 'Bool'}, 'result': 'κ × ν',
+     'loop_fuel': True, 'key_locals': [], 'yield_unbox': ['key', 'val'], 'tie_theorem': 'C01.src_iteritems_eq_model'},
+])
+OMD['methods'] = _OMD
 for _sp in _OMD:
     _sp['gen_file'] = 'dictutils_omd'
 
@@ -726,3 +755,92 @@ _C08_LOOP = {
     'tie_theorem': 'C08.src_remap_loop_simulates_hstep'}
 _C08.append(_C08_LOOP)
 SPECS['C08'] = _C08
+# --- round 3e: C16, the text builders of boltons.tbutils (harness/py2lean_c16.py: spec key `translator`; notes/SRCTIE.md
+# section "C16"; runtime lean/BoltonsVerif/PyRtC16.lean).  Types: Str | Int | Nat | Bool | List T | Option T | T × U |
+# FrameD (a frame dict of a ParsedException: keys filepath / lineno / funcname present with str values, `source_line`
+# read with .get) | Callpoint (object: module_path, lineno (int >= 0), func_name, line) | DLine (a _DeferredLine).
+# `self_attrs`: attributes of `self` that become parameters; `self_obj`: `self` is an object of that declared type;
+# `locals`: declared types of locals that hold None at first.  Callees come before their callers.
+_C16 = [
+    {'qualname': 'ParsedException.to_string', 'lean_name': 'ParsedException.to_string', 'method': True,
+     'self_attrs': {'frames': 'List FrameD', 'exc_type': 'Str', 'exc_msg': 'Str'}, 'params': {}, 'result': 'Str',
+     'tie_theorem': 'C16.src_to_string_eq_model'},
+    {'qualname': '_repeated_line_note', 'lean_name': 'repeated_line_note', 'params': {'count': 'Int'},
+     'result': 'Str', 'tie_theorem': 'C16.src_repeated_line_note_eq_model'},
+    {'qualname': 'Callpoint.tb_frame_str', 'lean_name': 'Callpoint.tb_frame_str', 'method': True,
+     'self_obj': 'Callpoint', 'params': {}, 'result': 'Str', 'tie_theorem': 'C16.src_tb_frame_str_eq_model'},
+    {'qualname': 'TracebackInfo.get_formatted', 'lean_name': 'TracebackInfo.get_formatted', 'method': True,
+     'self_attrs': {'frames': 'List Callpoint'}, 'params': {}, 'result': 'Str',
+     'locals': {'last_site': 'Option (Str × Nat × Str)'},
+     'tie_theorem': 'C16.src_get_formatted_eq_model'},
+]
+for _sp in _C16:
+    _sp.update(module='boltons.tbutils', kind='function', translator='py2lean_c16', gen_file='tbutils_c16')
+SPECS['C16'] = _C16
+# C16, second group: ExceptionInfo.  `tb_info.frames`: the attribute path `self.tb_info.frames` (a parameter
+# `self_tb_info_frames`); `self_classes`: the declared class of the sub-object, whose translated methods may be called;
+# `region`: the statements of from_exc_info that compute the display name (first assignment of `type_str` up to the
+# assignment of `val_str`), over `exc_type: ExcType` (`__qualname__: str`, `__module__`: a str or something else).
+_C16B = [
+    {'qualname': 'ExceptionInfo.get_formatted_exception_only', 'lean_name': 'ExceptionInfo.get_formatted_exception_only',
+     'method': True, 'self_attrs': {'exc_type': 'Str', 'exc_msg': 'Str'}, 'params': {}, 'result': 'Str',
+     'tie_theorem': 'C16.src_ei_exc_only_eq_model'},
+    {'qualname': 'ExceptionInfo.get_formatted', 'lean_name': 'ExceptionInfo.get_formatted', 'method': True,
+     'self_attrs': {'exc_type': 'Str', 'exc_msg': 'Str', 'tb_info.frames': 'List Callpoint'},
+     'self_classes': {'tb_info': 'TracebackInfo'}, 'params': {}, 'result': 'Str',
+     'tie_theorem': 'C16.src_ei_get_formatted_eq_model'},
+    {'qualname': 'ExceptionInfo.from_exc_info', 'lean_name': 'ExceptionInfo.type_str',
+     'region': {'start': 'type_str', 'stop': 'val_str', 'result': 'type_str'},
+     'locals': {'type_mod': 'Option Str'}, 'params': {'exc_type': 'ExcType'}, 'result': 'Str',
+     'tie_theorem': 'C16.src_type_str_eq_model'},
+]
+for _sp in _C16B:
+    _sp.update(module='boltons.tbutils', kind='function', translator='py2lean_c16', gen_file='tbutils_c16')
+_C16.extend(_C16B)
+# `_some_str(value)`: `value` is an arbitrary object (`StrObj`: its `__str__` returns a str or raises - `none`, the
+# model's `Option Str` argument of `C16.someStr`).
+_C16C = [{'qualname': '_some_str', 'lean_name': 'some_str', 'params': {'value': 'StrObj'}, 'result': 'Str',
+          'tie_theorem': 'C16.src_some_str_eq_model', 'module': 'boltons.tbutils', 'kind': 'function',
+          'translator': 'py2lean_c16', 'gen_file': 'tbutils_c16'}]
+_C16.extend(_C16C)
+# the second copy of the display-name computation: format_exception_only (`stype = ...` up to `if not issubclass(...)`);
+# `false_before`: the guard `if etype is None:` in front of the region is false for an `etype : ExcType`.
+_C16D = [{'qualname': 'format_exception_only', 'lean_name': 'format_exception_only_type_str',
+          'region': {'start': 'stype', 'stop_test': 'issubclass', 'result': 'stype', 'false_before': ['etype is None']},
+          'locals': {'smod': 'Option Str'}, 'params': {'etype': 'ExcType'}, 'result': 'Str',
+          'tie_theorem': 'C16.src_feo_type_str_eq_model', 'module': 'boltons.tbutils', 'kind': 'function',
+          'translator': 'py2lean_c16', 'gen_file': 'tbutils_c16'}]
+_C16.extend(_C16D)
+# --- round 3e: C06, the quoting functions of boltons.urlutils (harness/py2lean_c06.py: spec key `translator`;
+# notes/SRCTIE.md section "Round 3e: C06").  A str is the list of its code points, a bytes the list of its bytes (`List Nat`:
+# the conventions of C06/Model.lean).  `c06.maps` / `c06.sets` / `c06.hexmaps`: module-level lookup tables -> their
+# regenerated Lean tables in Generated/C06_UrlTables.lean (written by the C06 regen hook from the module under test);
+# `c06.covers`: map -> the sets whose members are all keys of it (checked on the module under test on every run; kernel-
+# checked on the regenerated tables by C06.src_delims_in_maps).  `unicodedata.normalize('NFC', .)` is the parameter `nfc`.
+_C06_MAPS = {'_PATH_PART_QUOTE_MAP': 'pathMap', '_QUERY_PART_QUOTE_MAP': 'queryMap',
+             '_FRAGMENT_QUOTE_MAP': 'fragmentMap', '_USERINFO_PART_QUOTE_MAP': 'userinfoMap'}
+_C06_SETS = {'_PATH_DELIMS': 'pathDelims', '_QUERY_DELIMS': 'queryDelims', '_FRAGMENT_DELIMS': 'fragmentDelims',
+             '_USERINFO_DELIMS': 'userinfoDelims'}
+_C06_CFG = {'maps': _C06_MAPS, 'sets': _C06_SETS, 'hexmaps': {'_HEX_CHAR_MAP': 'hexMap'},
+            'regex_split': {'_ASCII_RE': ('([\x00-\x7f]+)', 'asciiSplit')},
+            'covers': {m: sorted(_C06_SETS) for m in _C06_MAPS}}
+_C06 = [
+    {'module': 'boltons.urlutils', 'qualname': 'quote_%s_part' % _c, 'lean_name': 'quote_%s_part' % _c,
+     'params': {'text': 'Str', 'full_quote': 'Bool'}, 'kind': 'function', 'result': 'Str',
+     'tie_theorem': 'C06.src_quote_%s_part_eq_model' % _c, 'translator': 'py2lean_c06', 'gen_file': 'urlutils_quote',
+     'c06': _C06_CFG}
+    for _c in ('path', 'query', 'fragment', 'userinfo')
+]
+# `unquote_to_bytes(string)` for a str argument (the only kind `unquote` passes); the result is a bytes
+_C06.append({'module': 'boltons.urlutils', 'qualname': 'unquote_to_bytes', 'lean_name': 'unquote_to_bytes',
+             'params': {'string': 'Str'}, 'kind': 'function', 'result': 'Bytes',
+             'tie_theorem': 'C06.src_unquote_to_bytes_eq_model', 'translator': 'py2lean_c06',
+             'gen_file': 'urlutils_quote', 'c06': _C06_CFG})
+# `unquote(string)` called with the defaults of `encoding` / `errors` (`consts`: parameters fixed to their default, which the
+# translator checks in the signature); `_ASCII_RE.split` is the declared operation `PyRtC06.asciiSplit` (`regex_split`: the
+# regex must be compiled from exactly that pattern); `.decode('utf-8', 'replace')` is `PyRtC06.decodeUtf8Replace`.
+_C06.append({'module': 'boltons.urlutils', 'qualname': 'unquote', 'lean_name': 'unquote',
+             'params': {'string': 'Str'}, 'consts': {'encoding': 'utf-8', 'errors': 'replace'}, 'kind': 'function',
+             'result': 'Str', 'tie_theorem': 'C06.src_unquote_eq_model', 'translator': 'py2lean_c06',
+             'gen_file': 'urlutils_quote', 'c06': _C06_CFG})
+SPECS['C06'] = _C06
